@@ -79,6 +79,8 @@ def run(prog, upto=None, hooks=None) -> Result:
         n = N[w["n"]]
         return n.out(w["o"])
 
+    res.wire = wire  # for checks that repeat a call on the interpreter's state
+
     def nref(x):
         if "in" in x:
             return B[x["in"]].input_node
